@@ -232,3 +232,23 @@ Definition dur_cmp_unit (d : duration) (u : unit_t) : comparison :=
 Definition from_tz_offset (sign hours minutes : Z) : duration :=
   let dur := dur_add (unit_mul_i64 Hour hours) (unit_mul_i64 Minute minutes) in
   if sign <? 0 then dur_neg dur else dur.
+
+(* Duration::compose (mod.rs): integer sum of the u64 fields in i128 *)
+Definition compose_total (days hours minutes seconds ms us ns : Z) : Z :=
+  days * NANOSECONDS_PER_DAY + hours * NANOSECONDS_PER_HOUR + minutes * NANOSECONDS_PER_MINUTE
+  + seconds * NANOSECONDS_PER_SECOND + ms * NANOSECONDS_PER_MILLISECOND + us * NANOSECONDS_PER_MICROSECOND + ns.
+Definition compose (sign days hours minutes seconds ms us ns : Z) : duration :=
+  let total := compose_total days hours minutes seconds ms us ns in
+  if sign <? 0 then from_total_nanoseconds (- total) else from_total_nanoseconds total.
+
+(* src/duration/std.rs: From<Duration> for std::time::Duration as (secs, subsec_nanos); From<std::time::Duration> *)
+Definition to_std (d : duration) : Z * Z :=
+  if signum d =? -1 then (0, 0)
+  else
+    let nanos := total_nanoseconds d in
+    let unsigned := if 0 <=? nanos then nanos else 0 in                     (* u128::try_from(..).unwrap_or(0) *)
+    let secs := tdiv unsigned NANOSECONDS_PER_SECOND in
+    ((if secs <=? U64_MAX then secs else U64_MAX), trem unsigned NANOSECONDS_PER_SECOND).
+Definition from_std (secs subsec_nanos : Z) : duration :=
+  let n := secs * 1000000000 + subsec_nanos in                              (* as_nanos(): u128 *)
+  from_total_nanoseconds (if n <=? I128_MAX then n else I128_MAX).
